@@ -79,6 +79,7 @@ type scheduler struct {
 	threads  []*gthread
 	cur      *gthread
 	preempts int
+	delays   int // deviations from the round-robin order used so far (delay-bounded scheduling)
 	timers   []*vtimer
 	nchan    int
 	wg       sync.WaitGroup
@@ -191,9 +192,76 @@ func (s *scheduler) switchTo(g, next *gthread, exiting bool) {
 	}
 }
 
+// rrOrder returns the enabled goroutines in round-robin order starting after g (g itself last
+// unless it is the only one).
+func (s *scheduler) rrOrder(g *gthread, ids []int64) []int64 {
+	var after, before []int64
+	for _, id := range ids {
+		switch {
+		case id > int64(g.id):
+			after = append(after, id)
+		case id < int64(g.id):
+			before = append(before, id)
+		}
+	}
+	out := append(after, before...)
+	for _, id := range ids {
+		if id == int64(g.id) {
+			out = append(out, id)
+		}
+	}
+	return out
+}
+
+// delayBounded reports whether this run uses delay-bounded scheduling: a deterministic
+// round-robin scheduler from which an execution may deviate at most DelayBound times in total
+// (choosing the k-th candidate instead of the first costs k deviations).
+func (s *scheduler) delayBounded() bool { return s.px.eng.cfg.DelayBound != nil }
+
+func (s *scheduler) chooseDelayed(opts []int64) int64 {
+	left := *s.px.eng.cfg.DelayBound - s.delays
+	if left < 0 {
+		left = 0
+	}
+	if len(opts) > left+1 {
+		opts = opts[:left+1]
+	}
+	if len(opts) == 1 {
+		return opts[0]
+	}
+	c := s.px.choose('s', opts)
+	for k, id := range opts {
+		if id == c {
+			s.delays += k
+		}
+	}
+	return c
+}
+
 // yield is a preemption point for a goroutine that is still able to run.
 func (s *scheduler) yield(g *gthread) {
 	if len(s.threads) < 2 {
+		return
+	}
+	if s.delayBounded() {
+		ids := s.enabledIDs()
+		if len(ids) < 2 {
+			return
+		}
+		// staying on the current goroutine is free; the k-th other one in round-robin order costs k
+		opts := []int64{int64(g.id)}
+		for _, id := range s.rrOrder(g, ids) {
+			if id != int64(g.id) {
+				opts = append(opts, id)
+			}
+		}
+		c := s.chooseDelayed(opts)
+		if c == int64(g.id) {
+			return
+		}
+		s.preempts++
+		s.px.res.Preemptions = s.preempts
+		s.switchTo(g, s.threads[c], false)
 		return
 	}
 	if s.preempts >= s.px.eng.cfg.Preemptions {
@@ -229,7 +297,12 @@ func (s *scheduler) reschedule(g *gthread, exiting bool) {
 			}
 			s.deadlock(g)
 		}
-		c := s.px.choose('s', ids)
+		var c int64
+		if s.delayBounded() {
+			c = s.chooseDelayed(s.rrOrder(g, ids))
+		} else {
+			c = s.px.choose('s', ids)
+		}
 		if c == int64(g.id) && !exiting {
 			return
 		}
